@@ -80,8 +80,7 @@ def evWalk (env : Env) (ts : Addr) : State → List Log → Nat × Bool
     | (_, false) => (0, true)
 
 def magnitude (n : Nat) : String :=
-  if n = 0 then "zero" else if n ≤ 1000 then "small" else if n < 2 ^ 128 then "mid"
-  else if n < 2 ^ 255 then "huge" else "edge"
+  if n = 0 then "zero" else if n < 2 ^ 128 then "norm" else if n < 2 ^ 255 then "huge" else "edge"
 
 def branchOf (env : Env) (s : State) : Op → String
   | .postTx to gu gp logs =>
@@ -90,7 +89,7 @@ def branchOf (env : Env) (s : State) : Op → String
     | none => "hook-no-turnstile"
     | some ts =>
       let (n, st) := evWalk env ts s logs
-      let ev := if logs.isEmpty then "nolog" else if st then (if n == 0 then "stop" else "chg+stop") else if n == 0 then "inert" else "chg"
+      let ev := if logs.isEmpty then "nolog" else if n == 0 then (if st then "stop" else "inert") else "chg"
       let s1 := processEvents env ts s logs
       let fee := gu * gp
       let path :=
